@@ -28,6 +28,10 @@ Proof.
     repeat (apply orb_false_intro); apply N.eqb_neq; lia.
 Qed.
 
+Lemma fast_rev_eq : forall l, fast_rev l = rev l.
+Proof. intros l. unfold fast_rev. symmetry. apply rev_alt. Qed.
+Arguments fast_rev : simpl never.
+
 (* ---- TokenIter never runs out of fuel and yields the maximal runs --------------------------------- *)
 Section Tok.
   Variable sp : N -> bool.
@@ -69,9 +73,9 @@ Section Tok.
   Lemma G_find : forall s cur t a, find sp s = (t, a) -> G s cur = emit (rev cur ++ t) (rest a).
   Proof.
     induction s as [|c r IH]; intros cur t a H; simpl in H.
-    - inversion H; subst. simpl. rewrite app_nil_r. unfold G. simpl.
+    - inversion H; subst. simpl. rewrite app_nil_r. unfold G. simpl. rewrite ?fast_rev_eq.
       destruct cur as [|x cur]; [reflexivity|]. rewrite emit_rev_cons. reflexivity.
-    - unfold G. simpl. destruct (sp c) eqn:E.
+    - unfold G. simpl. rewrite ?fast_rev_eq. destruct (sp c) eqn:E.
       + inversion H; subst. rewrite app_nil_r. simpl.
         destruct cur as [|x cur]; [reflexivity|]. rewrite emit_rev_cons. reflexivity.
       + destruct (find sp r) as [t' a'] eqn:F. inversion H; subst.
@@ -167,7 +171,7 @@ Qed.
 
 Lemma split_gen_in : forall sp s cur t x, In t (split_gen sp s cur) -> In x t -> In x s \/ In x cur.
 Proof.
-  intros sp. induction s as [|c r IH]; intros cur t x Ht Hx; simpl in Ht.
+  intros sp. induction s as [|c r IH]; intros cur t x Ht Hx; simpl in Ht; rewrite ?fast_rev_eq in Ht.
   - destruct cur as [|y cur]; [contradiction|]. destruct Ht as [Ht|[]]. subst t. right. apply in_rev. exact Hx.
   - destruct (sp c).
     + destruct cur as [|y cur].
